@@ -34,6 +34,7 @@ def run(repo, rep, tier):
                         "minutes/seconds, carries the sign once on the leading non-zero field and reads back to the rounded value mod 360 deg / 24 h")
     printed_forms(repo, rep)
     delegation(repo, rep)
+    construct4(repo, rep)
     fam = [(MOD, "Angle." + q) for q in ("deg2dms", "dms2deg", "reduce_dms", "dms_str", "ra_str", "dms_tuple", "ra_tuple")]
     effects.check_functions(repo, rep, fam)
     guards.check_functions(repo, rep, fam)
@@ -250,6 +251,100 @@ def printed_forms(repo, rep):
             rep.violation("R-CARRY", site, kind, "for %s: %s" % (cls, what), construct=cls)
         if not fails:
             rep.ok("R-CARRY", site, "%d classes: no 60 shown, sign once on the leading non-zero field, text reads back to the rounded value mod %d" % (n_cls, wrap), obligation=True)
+
+
+def construct4(repo, rep):
+    """R-SIGN4: Angle(d, m, s, sign) - the inverse of dms_tuple()/ra_tuple() - must give sign*(|d| + |m|/60 + |s|/3600).
+    The value set by Angle.set for the two four-value forms is extracted symbolically; it reaches the fields only through
+    abs(), products with the sign and the sign tests of reduce_dms, so it is executed exactly (with dms2deg / reduce_dms /
+    reduce_deg given by their own extracted terms) on every class: each field zero or not, the sign +1 or -1."""
+    from ..rules import outcomes
+    rep.rule("R-SIGN4", "Angle(d, m, s, sign) == sign*(|d| + |m|/60 + |s|/3600) for every class of zero/non-zero fields and both signs "
+                        "(decision table over the extracted constructor term, helper terms taken from the source)")
+    q = "Angle.set"
+    rep.fn(MOD, q)
+    site = MOD + "." + q
+    fn = repo.func(MOD, q)
+    if fn.args.vararg is None:
+        rep.inconcl("R-SIGN4", site, "set() no longer takes *args")
+        return
+    helper = {}
+    for h in ("Angle.reduce_dms", "Angle.dms2deg", "Angle.reduce_deg"):
+        hf = repo.func(MOD, h)
+        nm = [a.arg for a in hf.args.args]
+        dfl = [None] * (len(nm) - len(hf.args.defaults)) + [Fraction(d.value) if isinstance(d, ast.Constant) and isinstance(d.value, (int, float)) else None
+                                                             for d in hf.args.defaults]
+        try:
+            helper["Angle." + h] = (nm, dfl, ret_term(repo, MOD, h, arg_terms={n: T.sym("NUM_H_" + n.upper()) for n in nm}))
+        except AnalysisError:
+            pass
+
+    def prims(t, env):
+        if t[0] == "call" and t[1] in helper:
+            nm, dfl, term = helper[t[1]]
+            e2 = dict(env)
+            args = [a for a in t[2:] if a[0] != "kw"]
+            kws = {a[1]: a[2] for a in t[2:] if a[0] == "kw"}
+            for i, n in enumerate(nm):
+                if i < len(args):
+                    e2[T.sym("NUM_H_" + n.upper())] = eval_exact(args[i], env, prims)
+                elif n in kws:
+                    e2[T.sym("NUM_H_" + n.upper())] = eval_exact(kws[n], env, prims)
+                elif dfl[i] is not None:
+                    e2[T.sym("NUM_H_" + n.upper())] = dfl[i]
+                else:
+                    raise NotEvaluable("missing argument %s of %s" % (n, t[1]))
+            return eval_exact(term, e2, prims)
+        if t[0] == "call" and t[1] == "red" and len(t) == 3:
+            v = eval_exact(t[2], env, prims)
+            return v if abs(v) < 360 else (abs(v) % 360) * (1 if v >= 0 else -1)
+        return None
+    F = Fraction
+    syms = [T.sym("NUM_D"), T.sym("NUM_M"), T.sym("NUM_S"), T.sym("NUM_SG")]
+    four = ("tuple",) + tuple(syms)
+    n_cls, bad, err = 0, {}, None
+    for form, args in (("Angle(d, m, s, sign)", four), ("Angle((d, m, s, sign))", ("tuple", four))):
+        kw = {"self": T.sym("self"), fn.args.vararg.arg: args}
+        if fn.args.kwarg is not None:
+            kw[fn.args.kwarg.arg] = ("dict", ())
+        outs = [o for o in outcomes(repo, MOD, q, arg_terms=kw) if o.kind in ("ret", "fall")]
+        for d in (F(0), F(5)):
+            for m in (F(0), F(7)):
+                for sc in (F(0), F(25, 2)):
+                    for sg in (F(1), F(-1)):
+                        env = dict(zip(syms, (d, m, sc, sg)))
+                        try:
+                            live = [o for o in outs if eval_exact(o.cond, env, prims)]
+                            if len(live) != 1 or "self._deg" not in live[0].env:
+                                raise NotEvaluable("no single value-setting path")
+                            got = eval_exact(live[0].env["self._deg"], env, prims)
+                        except NotEvaluable as e:
+                            err = "%s: %s" % (form, e)
+                            break
+                        except (TypeError, ValueError, ZeroDivisionError) as e:
+                            err = "%s: %s: %s" % (form, type(e).__name__, e)
+                            break
+                        n_cls += 1
+                        want = sg * (d + m / 60 + sc / 3600)
+                        if abs(got - want) > F(1, 10 ** 9):
+                            bad.setdefault(form, ((d, m, float(sc), int(sg)), float(got), float(want)))
+                    if err:
+                        break
+                if err:
+                    break
+            if err:
+                break
+        if err:
+            break
+    if err:
+        rep.inconcl("R-SIGN4", site, "the four-value constructor term cannot be executed on the class table: %s" % err)
+        return
+    rep.floor("classes of (d, m, s, sign) executed for the four-value constructor", n_cls, 32)
+    for form, (cls, got, want) in sorted(bad.items()):
+        rep.violation("R-SIGN4", site, "sign4:" + form, "%s with (d, m, s, sign) = %s sets %s degrees; the pieces of dms_tuple()/ra_tuple() stand for %s "
+                      "(the sign is lost or misapplied when a leading field is zero)" % (form, cls, got, want), construct=str(cls), obligation=True)
+    if not bad:
+        rep.ok("R-SIGN4", site, "both four-value forms give sign*(|d| + |m|/60 + |s|/3600) in all %d classes" % n_cls, obligation=True)
 
 
 def strip_red(t):
